@@ -36,6 +36,7 @@ func init() {
 			"sinks: 20 string representations (plain, UTF-16 backed ASCII / Latin / astral / lone surrogates / NUL, wrapped, nested) x 64 script-level Go-typed sinks (host function parameters of type string, []byte, interface{}, int, float64, bool, variadic, slices, maps, structs, pointers, Value, FunctionCall; struct fields; map keys and values; slice and array elements) and 15 Go API sinks. " +
 			"globals: 46 special bindings (global eval, Function, Object, ..., undefined, NaN; intrinsic prototype methods) x 15 mutations (overwrite, delete, accessor, freeze, redeclare through eval) x 15 groups of public Otto methods afterwards (Copy, Run, Eval, Compile, Get, Set, Call, Object, ToValue, Make*Error, Context, result accessors, host functions, setters). " +
 			"descriptors: 11 receiver kinds (5 bridged) x 6 property names x 324 descriptor shapes (3^3 attribute states x 12 payloads incl. value-less, accessor, undefined halves, contradictory) x 5 operations (defineProperty, defineProperties, create, define-then-freeze, freeze-then-define). " +
+			"deep-mixed: 23 nesting layers typed by the context they stand in and the context of their hole (statement / expression: function declarations, function expressions, IIFEs, getter and setter bodies, blocks, if / while / try / with / switch, array / object / paren / call / assignment / ternary / comma / unary) x ALL well-typed cycles of period <= 3 (71 of period <= 2, 673 of period 3) repeated to N layers x {Run, Compile, eval, Function} (quick: period <= 2 at N = 10^5 through every route and period 3 at N = 3*10^4 through Compile; thorough: N in {3*10^4, 10^5, 4*10^5}, every route); oracle: the verdict of the same number of plain array-literal levels through the same route (differential twin), non-trivial = the 6-layer text of the cycle is accepted. " +
 			"Every case runs in a child process of the worker; a dead child (fatal error, watchdog) is a mismatch of the announced case and the shard continues after it.",
 		Families: []engine.Family{
 			{Name: "surface-a01", Run: supervised(runSurfaceClass("a01"))},
@@ -51,6 +52,7 @@ func init() {
 			{Name: "globals", Run: supervised(runGlobals)},
 			{Name: "descriptors", Run: supervised(runDescriptors)},
 			{Name: "deep-source", Run: supervised(runDeepSource)},
+			{Name: "deep-mixed", Run: supervised(runDeepMixed)},
 			{Name: "bytes", Run: supervised(runBytes)},
 			{Name: "tokens", Run: supervised(runTokens)},
 			{Name: "statements", Run: supervised(runStatements)},
